@@ -283,6 +283,33 @@ var scenarios = []scenario{
 		s.opLookup(s.handleOf(a, "moved"), "..")
 		s.opReaddirplus(a, 0, 1000, 10000)
 		s.opReaddirplus(b, 0, 1000, 10000)
+		// the four inodes in every relative order (directories created after their contents' numbers)
+		c := s.mk("mkdir", s.root(), "c")
+		s.mk("create", b, "p")
+		s.mk("create", c, "q")
+		s.mk("create", a, "late") // larger number than c and its file
+		s.opRename(c, "q", a, "late")    // source directory above target directory
+		s.mk("create", c, "q2")
+		s.opRename(a, "late", c, "q2")   // and back
+		s.mk("create", s.root(), "top")
+		s.opRename(c, "q2", s.root(), "top")
+		s.opRename(s.root(), "top", b, "p")
+		// a directory whose number is above those of the files in it (as after inode reuse)
+		s.mk("create", s.root(), "x1")
+		s.mk("create", s.root(), "x2")
+		s.mk("create", s.root(), "x3")
+		hi := s.mk("mkdir", s.root(), "hi")
+		s.opRename(s.root(), "x1", hi, "x1")
+		s.opRename(s.root(), "x2", hi, "x2")
+		s.opRename(s.root(), "x3", hi, "x3")
+		s.opRename(hi, "x1", hi, "x2") // three inodes: directory, source, target (source < target < directory)
+		s.opRename(hi, "x3", hi, "x2") // source > target
+		s.opLookup(hi, "x2")
+		s.opRemove("remove", hi, "x2") // child below parent: ordered relock
+		s.mk("create", s.root(), "y1")
+		lo := s.mk("mkdir", s.root(), "lo")
+		s.opRename(s.root(), "y1", lo, "y1")
+		s.opRename(hi, "x2", lo, "y1")
 	}},
 	{"unstable writes, commit, restart", func(s *seqRun) {
 		f := s.mk("create", s.root(), "u")
